@@ -278,6 +278,16 @@ def rule_rmw_only(fx, col):
             col.add(k, s.key(), not written, 'get_mut result is only read' if not written else 'cell written through get_mut', s.loc)
         else:
             col.fail(k, s.key(), 'the cell may only be written by a single swap/compare_exchange; found `%s`' % s.op, s.loc)
+    # compare_exchange_weak may fail spuriously: only inside a loop that retries on its failure
+    from . import progress as P
+    for s in cx.sites:
+        if s.op == 'compare_exchange_weak':
+            b = s.body
+            lp = [(h, bl, tl) for h, bl, tl in b.loops() if s.bb in bl]
+            ok = bool(lp) and any(P._reached_only_on_cas_failure(b, s, t, h, bl) for h, bl, tl in lp for t in tl)
+            col.add('RMW-ONLY', s.key() + '|weak exchange retried', ok,
+                    'compare_exchange_weak sits in a loop whose back edge is taken on its failure' if ok else
+                    'compare_exchange_weak outside a retry loop: a spurious failure is taken for "somebody else changed the value"', s.loc)
     col.floor('RMW-ONLY', 'cell RMW sites', n_rmw, 2)
     col.floor('RMW-ONLY', 'exclusive reads', n_excl, 2)
     # constructors: every ArcSwapAny aggregate gets its ptr from Atomic::new
